@@ -27,6 +27,8 @@ MODEL_KINDS = (
     "joint_uni",
     "joint_multi",          # joint, with sources, diagonal? (scalar by default)
     "joint_nosrc",
+    "joint_ev2",            # joint, with sources, two competing events (EVENT_BOOL in {0, 1, 2})
+    "joint_ev2_nosrc",
     "mixture",
 )
 
@@ -37,7 +39,7 @@ def sigmoid(x):
 
 def kind_info(kind: str) -> dict:
     """Static description of a model kind."""
-    d = dict(kind=kind, family=None, obs=None, sources=True, uni=False, event=False, binary=False)
+    d = dict(kind=kind, family=None, obs=None, sources=True, uni=False, event=False, binary=False, nb_events=0)
     if kind.startswith("logistic"):
         d["family"] = "logistic"
     elif kind.startswith("linear"):
@@ -47,6 +49,7 @@ def kind_info(kind: str) -> dict:
     elif kind.startswith("joint"):
         d["family"] = "joint"
         d["event"] = True
+        d["nb_events"] = 2 if "_ev2" in kind else 1
     elif kind == "mixture":
         d["family"] = "mixture_logistic"
     if kind.endswith("_uni"):
@@ -85,6 +88,8 @@ def make_cohort(
     info = kind_info(kind)
     if info["uni"]:
         n_features = 1
+    if info["nb_events"] > 1:
+        n = max(n, 4)   # the reader derives the number of events from the data: each type and a censored individual must be present
     feats = [f"Y{j}" for j in range(n_features)]
     rows = []
     # population ground truth
@@ -116,6 +121,8 @@ def make_cohort(
             # weibull-ish event after first visit
             ev_t = round(max(times) + st.uniform(0.0, 6.0), 3)
             ev_b = 1 if st.bernoulli(0.55) else 0
+            if ev_b and info["nb_events"] > 1 and st.bernoulli(0.45):
+                ev_b = 2
         for tt in times:
             row = {"ID": pid, "TIME": tt}
             if info["event"]:
@@ -140,6 +147,9 @@ def make_cohort(
         ids = list(dict.fromkeys(df["ID"]))
         df.loc[df["ID"] == ids[0], "EVENT_BOOL"] = 1
         df.loc[df["ID"] == ids[-1], "EVENT_BOOL"] = 0
+        if info["nb_events"] > 1:
+            df.loc[df["ID"] == ids[1], "EVENT_BOOL"] = 2
+            df.loc[df["ID"] == ids[2], "EVENT_BOOL"] = 1   # (two observed events of the first type: the Weibull initialisation needs them)
     # missing entries (never a whole row of NaN unless n_features == 1 and we skip)
     if missing_rate > 0 and n_features >= 2:
         for r in range(len(df)):
@@ -214,6 +224,8 @@ def make_model(kind: str, n_features: int, *, source_dimension: Optional[int] = 
             kw.update(source_dimension=0)
         else:
             kw.update(source_dimension=sd, dimension=n_features)
+        if info["nb_events"] > 1:
+            kw.update(nb_events=info["nb_events"])
     elif fam == "mixture_logistic":
         kw.update(obs_models="gaussian-diagonal", dimension=n_features, source_dimension=sd, n_clusters=2)
     if name:
